@@ -563,13 +563,203 @@ Section AcceptProofs.
     destruct (accept_sound _ A) as [_ [_ [_ [V _]]]].
     destruct (V c Ic) as [V1 [V2 _]].
     assert (Nn : ~ In n (map fst (env_of (mutate (RemoveVar n) w) c))).
-    { unfold env_of; cbn. rewrite map_app. intros I. apply in_app_or in I as [I | I]; [contradiction|].
+    { unfold env_of; cbn [mutate w_gvars]. rewrite map_app, map_map. cbn [fst]. intros I.
+      apply in_app_or in I as [I | I]; [contradiction|].
       apply in_map_iff in I as [[n' rs] [E I]]. cbn in E; subst n'.
       apply filter_In in I as [I _]. apply filter_In in I as [_ I]. cbn in I.
       rewrite String.eqb_refl in I. discriminate. }
     destruct Hu as [Hu | [v [rs [H1 H2]]]].
     - apply Nn, V1, Hu.
     - apply Nn. eapply V2; eassumption.
+  Qed.
+  (* ---------------------------------------------------------------- CyclicVars: a mention that closes a cycle *)
+  Lemma accept_gvars w : accept cs w = true -> gvars_acyclic w = true.
+  Proof. unfold accept. intros H. apply andb_prop in H as [_ H]. exact H. Qed.
+
+  Lemma add_mention_names a b vs : map fst (add_mention a b vs) = map fst vs.
+  Proof.
+    unfold add_mention. rewrite map_map. apply map_ext. intros e. destruct (String.eqb (fst e) a); reflexivity.
+  Qed.
+
+  Lemma add_mention_keeps a b vs v rs :
+    In (v, rs) vs -> exists rs', In (v, rs') (add_mention a b vs) /\ (forall u, In u rs -> In u rs').
+  Proof.
+    intros I. unfold add_mention. destruct (String.eqb v a) eqn:E.
+    - exists (rs ++ [b]). split; [|intros u Hu; apply in_or_app; left; exact Hu].
+      apply in_map_iff. exists (v, rs). cbn. rewrite E. split; [reflexivity | exact I].
+    - exists rs. split; [|auto]. apply in_map_iff. exists (v, rs). cbn. rewrite E. split; [reflexivity | exact I].
+  Qed.
+
+  Lemma add_mention_new a b vs rs : In (a, rs) vs -> In (a, rs ++ [b]) (add_mention a b vs).
+  Proof.
+    intros I. unfold add_mention. apply in_map_iff. exists (a, rs). cbn. rewrite String.eqb_refl. split; [reflexivity | exact I].
+  Qed.
+
+  Lemma vlookup_add_mention a b vs n :
+    vlookup n (add_mention a b vs) = option_map (fun rs => if String.eqb n a then rs ++ [b] else rs) (vlookup n vs).
+  Proof.
+    induction vs as [|[k rs] r IH]; [reflexivity|]. cbn [add_mention map fst snd].
+    destruct (String.eqb k a) eqn:Ka; cbn [vlookup fst snd]; destruct (String.eqb n k) eqn:Nk.
+    - apply String.eqb_eq in Nk; subst k. rewrite Ka. reflexivity.
+    - exact IH.
+    - apply String.eqb_eq in Nk; subst k. rewrite Ka. reflexivity.
+    - exact IH.
+  Qed.
+
+  Lemma forallb_imp {A} (f g : A -> bool) l : (forall x, f x = true -> g x = true) -> forallb f l = true -> forallb g l = true.
+  Proof. intros H F. rewrite forallb_forall in *. auto. Qed.
+
+  (* one more mention makes no global variable resolvable that was not *)
+  Lemma gres_mention_anti a b vs : forall f n, gres (add_mention a b vs) f n = true -> gres vs f n = true.
+  Proof.
+    induction f as [|f IH]; intros n H; [discriminate|]. cbn [gres] in *.
+    rewrite vlookup_add_mention in H. destruct (vlookup n vs) as [rs|]; [|discriminate]. cbn in H.
+    destruct (String.eqb n a).
+    - rewrite forallb_app in H. apply andb_prop in H as [H _]. eapply forallb_imp; [exact IH | exact H].
+    - eapply forallb_imp; [exact IH | exact H].
+  Qed.
+
+  Lemma gres_fuel_mono vs : forall f n, gres vs f n = true -> gres vs (S f) n = true.
+  Proof.
+    induction f as [|f IH]; intros n H; [discriminate|].
+    cbn [gres] in H. change (gres vs (S (S f)) n) with
+      (match vlookup n vs with None => false | Some rs => forallb (gres vs (S f)) rs end).
+    destruct (vlookup n vs) as [rs|]; [|discriminate]. eapply forallb_imp; [exact IH | exact H].
+  Qed.
+
+  Lemma add_mention_length a b vs : length (add_mention a b vs) = length vs.
+  Proof. unfold add_mention. apply map_length. Qed.
+
+  Lemma vlookup_In n vs rs : In (n, rs) vs -> exists rs0, vlookup n vs = Some rs0.
+  Proof.
+    induction vs as [|[k r0] r IH]; [intros []|]. intros [E | I]; cbn.
+    - inversion E; subst. rewrite String.eqb_refl. eexists; reflexivity.
+    - destruct (String.eqb n k); [eexists; reflexivity | exact (IH I)].
+  Qed.
+
+  (* a now mentions b, and b cannot be resolved among the globals: neither can a *)
+  Lemma gres_mention_new a b vs rs :
+    In (a, rs) vs -> gres vs (length vs) b = false -> gres (add_mention a b vs) (length vs) a = false.
+  Proof.
+    intros I Hb. destruct (length vs) as [|f] eqn:L; [reflexivity|]. cbn [gres].
+    rewrite vlookup_add_mention. destruct (vlookup_In a vs rs I) as [rs0 E]. rewrite E. cbn.
+    rewrite String.eqb_refl, forallb_app. cbn.
+    destruct (gres (add_mention a b vs) f b) eqn:G; [|rewrite andb_false_r; reflexivity].
+    apply gres_mention_anti, gres_fuel_mono in G. congruence.
+  Qed.
+
+  Definition env_edge (env : list (string * list string)) (u v : string) : Prop :=
+    exists rs, In (v, rs) env /\ In u rs.
+
+  (* env' keeps every mention of env and, in addition, a mentions b, while b already depended on a: a cycle *)
+  Lemma env_cycle env env' a b :
+    (forall v rs, In (v, rs) env -> exists rs', In (v, rs') env' /\ (forall u, In u rs -> In u rs')) ->
+    (exists rs', In (a, rs') env' /\ In b rs') ->
+    (b = a \/ clos_trans string (env_edge env) a b) ->
+    clos_trans string (env_edge env') a a.
+  Proof.
+    intros K N [-> | T].
+    - apply t_step. exact N.
+    - eapply t_trans; [|apply t_step; exact N].
+      eapply clos_trans_mono; [|exact T]. intros u v [rs [I Iu]].
+      destruct (K v rs I) as [rs' [I' S]]. exists rs'. split; [exact I' | apply S; exact Iu].
+  Qed.
+
+  (* scope None, seen through a component: the global a is visible to component c, b depends on a there, and b is not
+     resolvable among the globals (e.g. b is a variable of the component) - otherwise a stays a constant *)
+  Lemma complete_cyclic_gsees w a b c rs :
+    In c (w_comps w) -> In (a, rs) (w_gvars w) -> ~ In a (map fst (c_vars c)) -> gresolved w b = false ->
+    (b = a \/ clos_trans string (var_edge w c) a b) ->
+    accept cs (mutate (CyclicVars None a b) w) = false.
+  Proof.
+    intros Ic Ia Ns Gb Hp. cbn [mutate].
+    set (w' := mkWf (add_mention a b (w_gvars w)) (w_comps w)).
+    destruct (accept cs w') eqn:A; [|reflexivity]. exfalso.
+    destruct (accept_sound _ A) as [_ [_ [_ [V _]]]].
+    destruct (V c Ic) as [_ [_ C]]. apply (C a).
+    assert (Q : forall n, negb (kmem String.eqb n (map fst (c_vars c))) = true -> forall r0, In (n, r0) (w_gvars w) ->
+                exists r1, In (n, r1) (env_of w' c) /\ (gresolved w n = false -> forall u, In u r0 -> In u r1)).
+    { intros n Qn r0 I0. destruct (add_mention_keeps a b _ n r0 I0) as [r1 [I1 S]].
+      exists (if gresolved w' n then [] else r1). split.
+      - unfold env_of. apply in_or_app; right. apply in_map_iff. exists (n, r1). split; [reflexivity|].
+        apply filter_In. split; [exact I1 | exact Qn].
+      - intros G. destruct (gresolved w' n) eqn:G'; [|exact S]. exfalso.
+        unfold gresolved in G'. cbn [w' w_gvars] in G'. rewrite add_mention_length in G'.
+        apply gres_mention_anti in G'. unfold gresolved in G. congruence. }
+    apply (env_cycle (env_of w c) _ a b); [| |exact Hp].
+    - intros v rs0 I. unfold env_of in I. apply in_app_or in I as [I | I].
+      + exists rs0. split; [unfold env_of; apply in_or_app; left; exact I | auto].
+      + apply in_map_iff in I as [[n r0] [E I]]. cbn in E. inversion E; subst. apply filter_In in I as [I Qn]. cbn in Qn.
+        destruct (Q v Qn r0 I) as [r1 [I1 S]]. exists r1. split; [exact I1|].
+        destruct (gresolved w v); [intros u [] | apply S; reflexivity].
+    - exists (rs ++ [b]). split; [|apply in_or_app; right; left; reflexivity].
+      unfold env_of. apply in_or_app; right. apply in_map_iff. exists (a, rs ++ [b]). split.
+      + cbn. unfold gresolved. cbn [w' w_gvars]. rewrite add_mention_length.
+        rewrite (gres_mention_new a b _ rs Ia Gb). reflexivity.
+      + apply filter_In. split; [apply add_mention_new; exact Ia|].
+        cbn. apply negb_true_iff. destruct (kmem String.eqb a (map fst (c_vars c))) eqn:M; [|reflexivity].
+        apply (kmem_In string String.eqb string_eqb_eq') in M. contradiction.
+  Qed.
+
+  (* scope None, among the global variables themselves (resolved on their own when the configuration is initialised) *)
+  Lemma gvar_edge_spec w u v :
+    edge (gvar_graph w) u v <-> exists rs, In (v, rs) (w_gvars w) /\ In u rs /\ In u (map fst (w_gvars w)).
+  Proof.
+    unfold edge, gvar_graph. split.
+    - intros [rs [I Iu]]. apply in_map_iff in I as [[v' rs'] [E I]]. cbn in E. inversion E; subst.
+      apply filter_In in Iu as [Iu M]. apply (kmem_In string String.eqb string_eqb_eq') in M.
+      exists rs'. repeat split; assumption.
+    - intros [rs [I [Iu M]]]. exists (filter (fun u0 => kmem String.eqb u0 (map fst (w_gvars w))) rs). split.
+      + apply in_map_iff. exists (v, rs). split; [reflexivity | exact I].
+      + apply filter_In. split; [exact Iu | apply (kmem_In string String.eqb string_eqb_eq'); exact M].
+  Qed.
+
+  Lemma complete_cyclic_gvars w a b :
+    In a (map fst (w_gvars w)) -> In b (map fst (w_gvars w)) ->
+    (b = a \/ clos_trans string (edge (gvar_graph w)) a b) ->
+    accept cs (mutate (CyclicVars None a b) w) = false.
+  Proof.
+    intros Ia Ib Hp. cbn [mutate].
+    set (w' := mkWf (add_mention a b (w_gvars w)) (w_comps w)).
+    destruct (accept cs w') eqn:A; [|reflexivity]. exfalso.
+    apply accept_gvars in A. unfold gvars_acyclic in A.
+    apply (acyclic_b_sound string String.eqb string_eqb_eq' _ A a).
+    assert (Nm : map fst (w_gvars w') = map fst (w_gvars w)) by (apply add_mention_names).
+    assert (Mono : forall u v, edge (gvar_graph w) u v -> edge (gvar_graph w') u v).
+    { intros u v E. apply gvar_edge_spec in E as [rs [I [Iu M]]]. apply gvar_edge_spec.
+      destruct (add_mention_keeps a b _ v rs I) as [rs' [I' S]].
+      exists rs'. split; [exact I'|]. split; [apply S; exact Iu | rewrite Nm; exact M]. }
+    assert (New : edge (gvar_graph w') b a).
+    { apply gvar_edge_spec. apply in_map_iff in Ia as [[a' rs] [E I]]. cbn in E; subst a'.
+      exists (rs ++ [b]). split; [apply add_mention_new; exact I|].
+      split; [apply in_or_app; right; left; reflexivity | rewrite Nm; exact Ib]. }
+    destruct Hp as [-> | T].
+    - apply t_step; exact New.
+    - eapply t_trans; [eapply clos_trans_mono; [exact Mono | exact T] | apply t_step; exact New].
+  Qed.
+
+  (* scope Some i: a variable of component i additionally mentions b, and b depends on a in what component i sees *)
+  Lemma complete_cyclic_local w i c a b rs :
+    nth_error (w_comps w) i = Some c -> In (a, rs) (c_vars c) ->
+    (b = a \/ clos_trans string (var_edge w c) a b) ->
+    accept cs (mutate (CyclicVars (Some i) a b) w) = false.
+  Proof.
+    intros Hi Ia Hp. cbn [mutate].
+    set (c' := set_vars (add_mention a b) c).
+    set (w' := mkWf (w_gvars w) (upd_nth i (set_vars (add_mention a b)) (w_comps w))).
+    destruct (accept cs w') eqn:A; [|reflexivity]. exfalso.
+    destruct (accept_sound _ A) as [_ [_ [_ [V _]]]].
+    assert (Ic : In c' (w_comps w')) by (apply upd_nth_In; exact Hi).
+    destruct (V c' Ic) as [_ [_ C]]. apply (C a).
+    apply (env_cycle (env_of w c) _ a b); [| |exact Hp].
+    - intros v rs0 I. unfold env_of in *. cbn [c_vars c' set_vars]. rewrite add_mention_names.
+      change (gresolved w') with (gresolved w). change (w_gvars w') with (w_gvars w).
+      apply in_app_or in I as [I | I].
+      + destruct (add_mention_keeps a b _ v rs0 I) as [rs' [I' S]].
+        exists rs'. split; [apply in_or_app; left; exact I' | exact S].
+      + exists rs0. split; [apply in_or_app; right; exact I | auto].
+    - exists (rs ++ [b]). split; [|apply in_or_app; right; left; reflexivity].
+      unfold env_of. cbn [c_vars c' set_vars]. apply in_or_app; left. apply add_mention_new; exact Ia.
   Qed.
 End AcceptProofs.
 
@@ -598,6 +788,16 @@ Section Complete.
     | RemoveVar n =>                (* some component sees the global n and mentions it *)
         exists c, In c (w_comps w) /\ ~ In n (map fst (c_vars c)) /\
                   (In n (c_uses c) \/ exists v rs, In (v, rs) (env_of (mutate (RemoveVar n) w) c) /\ In n rs)
+    | CyclicVars None a b =>        (* the global a now mentions b, which already depends on a: among the globals
+                                       themselves, or in what some component that sees a resolves (b is then not
+                                       resolvable among the globals, e.g. it is a variable of the component) *)
+        (In a (map fst (w_gvars w)) /\ In b (map fst (w_gvars w)) /\
+         (b = a \/ clos_trans string (edge (gvar_graph w)) a b)) \/
+        (exists c rs, In c (w_comps w) /\ In (a, rs) (w_gvars w) /\ ~ In a (map fst (c_vars c)) /\
+                      gresolved w b = false /\ (b = a \/ clos_trans string (var_edge w c) a b))
+    | CyclicVars (Some i) a b =>    (* the variable a of component i now mentions b, which depends on a there *)
+        exists c rs, nth_error (w_comps w) i = Some c /\ In (a, rs) (c_vars c) /\
+                     (b = a \/ clos_trans string (var_edge w c) a b)
     end.
 
   Theorem complete m w : accept cs w = true -> applicable m w -> accept cs (mutate m w) = false.
@@ -610,5 +810,10 @@ Section Complete.
     - destruct H as [c [s' [rules [m [Hi [Hs [D [Hg F]]]]]]]]. eapply complete_unknown_key; eassumption.
     - destruct H as [c [s' [m [l [-> [Hi [Hs [N Hg]]]]]]]]. eapply complete_wrong_type; eassumption.
     - destruct H as [c [Ic [Nl Hu]]]. eapply complete_remove_var; eassumption.
+    - destruct scope as [i|].
+      + destruct H as [c [rs [Hi [Ia Hp]]]]. eapply complete_cyclic_local; eassumption.
+      + destruct H as [[Ia [Ib Hp]] | [c [rs [Ic [Ia [Ns [Gb Hp]]]]]]].
+        * apply complete_cyclic_gvars; assumption.
+        * eapply complete_cyclic_gsees; eassumption.
   Qed.
 End Complete.
